@@ -115,6 +115,20 @@ def apply_op(env: Env, op):
     out = C.canon(c)
     del c
     return out
+  if k in ('late_touch', 'register_late', 'late_touch_observed'):
+    # a container type that gets its traverser registered while the threads
+    # run: before that it is an opaque leaf, afterwards it is traversed
+    if k == 'register_late':
+      stubmod.register_latebox()
+    c = fdl.Config(env.fns['n0'], uid=op['uid'],
+                   x=stubmod.LateBox([fdl.Config(env.fns['n0'], uid=op['uid'] + 1)]))
+    try:
+      out = C.canon(fdl.build(c))
+    except Exception as e:  # pylint: disable=broad-except
+      out = C.canon_exc(e)
+    # whether `late_touch` came before or after the registration is a matter of
+    # order and both are fine; what a thread sees AFTER registering is not
+    return 'order-dependent' if k == 'late_touch' else out
   if k == 'suspend_enter':
     if len(env.suspend) >= 2:
       return 'skip'
